@@ -1,5 +1,6 @@
 """C12 — Pool lifecycle: stop rejects new work and settles every waiter (structural clauses)."""
 from rules.common import start
+from rules import wave3
 from rules import wave2
 from rules import pool
 
@@ -20,4 +21,6 @@ def run(tier):
     pool.run_once_rule(run, f, "C12-RUN-OR-CANCELLED", settle_rid="C12-CANCEL-SETTLE")
     # clauses added for the wave-2 seeds (rules/wave2.py; DESIGN 12a)
     wave2.grow_refusal_rule(run, f, "C12-GROW-REFUSAL")
+    # clauses added for the wave-2 seeds (rules/wave2.py; DESIGN 12a)
+    wave3.clean_all_waiters_rule(run, f, "C12-CLEAN-ALL")
     return run.finish()
